@@ -1,7 +1,28 @@
 import Drivers.Proto
 import St4sd.Model.TreeJson
+import St4sd.Model.TreeFlatten
 /-! Model driver for property C04 (layered resolution of a component configuration). -/
 open Lean Proto St4sd.Tree
+
+def jsonOfFields (kvs : Fields) : Json := jsonOfVal (.dict kvs)
+
+def jsonOfDesc (d : Desc) : Json :=
+  jobj [("platforms", jarr (d.platforms.map jchars)),
+        ("blueprint", jobj (d.blueprint.map fun (P, (g, st)) =>
+          (String.ofList P, jobj [("global", jsonOfVal g),
+                                  ("stages", jobj (st.map fun (i, v) => (toString i, jsonOfVal v)))]))),
+        ("variables", jobj (d.variables.map fun (P, pv) =>
+          (String.ofList P, jobj [("global", jsonOfFields pv.global),
+                                  ("stages", jobj (pv.stages.map fun (i, v) => (toString i, jsonOfFields v)))]))),
+        ("components", jarr (d.comps.map fun c =>
+          jobj [("stage", jnat c.stage), ("name", jchars c.name), ("body", jsonOfFields c.body)]))]
+
+def patched (j : Json) : Except String Desc := do
+  let d ← descOfJson (← j.getObjVal? "desc")
+  match j.getObjVal? "user" with
+  | .ok Json.null => pure d
+  | .ok u => do pure (patchUser d (← userOfJson u) (← getNat j "nstages"))
+  | .error _ => pure d
 
 def handle (j : Json) : Except String Json := do
   let op ← getStr j "op"
@@ -29,6 +50,16 @@ def handle (j : Json) : Except String Json := do
         | .error _ => .error .unsupported
       | .error _ => resolve d P i n prim fuel
     return jobj [("result", jsonOfResult result), ("vars", vars), ("layered", layered)]
+  | "flatten" =>
+    -- instance(P, ignore_errors=True, fill_in_all=False, is_primitive=prim, inject_missing_fields=inject)
+    let d ← patched j
+    let P ← getChars j "platform"
+    let prim ← getBool j "prim"
+    let inject ← getBool j "inject"
+    let fuel ← getNat j "fuel"
+    return match flatten fuel d P prim inject with
+      | .ok fd => jobj [("result", jobj [("ok", jsonOfDesc fd)]), ("skeleton", jsonOfDesc (flattenRaw d P))]
+      | .error e => jobj [("result", jsonOfResult (.error e)), ("skeleton", jsonOfDesc (flattenRaw d P))]
   | "interp" =>
     let ctx ← fieldsOfJson (← j.getObjVal? "ctx")
     let s ← getChars j "s"
